@@ -452,7 +452,7 @@ func runCase(t *testing.T, in Input) ([]StepObs, error) {
 	for _, x := range in.WL {
 		f.OracleKeeper.WhitelistedPairs.Insert(w.ctx, pairs[x])
 	}
-	var out []StepObs
+	out := []StepObs{}
 	for _, op := range in.Ops {
 		o, err := w.step(op)
 		if err != nil {
